@@ -59,6 +59,23 @@ func genMultiOpt(t *Tape, yieldProbe bool) *multiCase {
 		ds.Opts = append(ds.Opts, d)
 	}
 	// two list options sharing one default object
+	// an option may be called no-<the long name of another flag>: it is an option of its own
+	if t.Draw(6) == 0 {
+		var first *Decl
+		for _, d := range ds.Opts {
+			if _, l := optNames(d); d.Kind == KBool && l != "" {
+				first = d
+				break
+			}
+		}
+		for _, d := range ds.Opts {
+			if first != nil && d != first && d.Kind == KBool {
+				_, l := optNames(first)
+				d.Name = strings.Fields(d.Name)[0] + " no-" + l[2:]
+				break
+			}
+		}
+	}
 	for _, lk := range []ValKind{KStrings, KInts, KFloats} {
 		var lists []*Decl
 		for _, d := range ds.Opts {
